@@ -53,7 +53,14 @@ impl Acked {
     }
 
     pub async fn cursor(&self) -> Result<Cursor<VerifyingKey, LogId>, AckedError> {
+        #[cfg(p2panda_p2panda_verif)]
+        crate::verif_c07::point("cursor_before_read").await;
+
         let cursor = self.store.get_cursor(&self.cursor_name).await?;
+
+        #[cfg(p2panda_p2panda_verif)]
+        crate::verif_c07::point("cursor_after_read").await;
+
         Ok(cursor.unwrap_or(Cursor::new(&self.cursor_name, LogHeights::default())))
     }
 
@@ -134,6 +141,9 @@ impl Acked {
         tx!(self.store, {
             self.store.set_cursor(&cursor).await?;
         });
+
+        #[cfg(p2panda_p2panda_verif)]
+        crate::verif_c07::point("ack_after_write").await;
 
         Ok(())
     }
